@@ -327,9 +327,9 @@ def _one_parent(case, ctx, blocks, window, pidx):
             w_name = str(case["ids"]["transcript_symbol" if cls == "tx" else "feature_name"])
             w_score, w_rgb = 0, (0, 0, 0)
         else:
-            # (every third export hands the flag over as the equal int 0 / 1; on objects with sequence every other export is preceded
-            # by reading the spliced sequence of the SAME object - an export is a function of the object, not of what was asked before)
-            flag = int(chrom_mode) if (pidx + case["score"]) % 3 == 0 else chrom_mode
+            # (on objects with sequence every other export is preceded by reading the spliced sequence of the SAME object - an export is a
+            # function of the object, not of what was asked before)
+            flag = chrom_mode      # always a bool: the library itself tests flags by identity (`is True` / `is False`) in several places
             if (pidx + case["score"]) % 2 == 0:
                 ctx.call(lambda: str(obj.get_spliced_sequence()))
             bed, exc = ctx.call(obj.to_bed12, score=case["score"], rgb=RGB(*rgb), name=name_arg, chromosome_relative_coordinates=flag)
